@@ -133,7 +133,7 @@ func (m *Machine) mkTimerObj(typeName string, periodic bool) value {
 	return obj
 }
 
-func extNewTimer(fr *frame, a []value) value  { return fr.i.mkTimerObj("Timer", false) }
+func extNewTimer(fr *frame, a []value) value { return fr.i.mkTimerObj("Timer", false) }
 func extNewTicker(fr *frame, a []value) value {
 	if d, ok := a[0].(int64); ok && d <= 0 {
 		panic(targetPanic{iface{types.Typ[types.String], "non-positive interval for NewTicker"}})
